@@ -34,6 +34,11 @@ def gen(ctx):
         c["T2"] = T2
         c["kind"] = "ev1"
         yield c
+    # continuation with a callable timesteps, long enough to cross internal growth thresholds (oracle only)
+    for K in ([34, 70, 131] if ctx.tier == "quick" else [31, 32, 33, 34, 63, 64, 65, 66, 70, 127, 128, 129, 131]):
+        for dim in (1, 2):
+            yield dict(kind="dyncont", dim=dim, H=rng.randint(2, 4), T1=rng.randint(2, 5), K=K, memo=rng.choice(["False", "True", "recursive_lit"]),
+                       seed=rng.randrange(10 ** 6))
     # inexact floating-point rules on narrow float dtypes (oracle only: no exact model of float arithmetic):
     # the split law must hold bit for bit because every step reads the stored (rounded) previous row
     for _ in range(ctx.n(60, 600)):
@@ -60,7 +65,7 @@ def _mod(c):
 
 
 def line(c):
-    if c["kind"] == "evf":
+    if c["kind"] in ("evf", "dyncont"):
         return None
     m = _mod(c)
     if m:
@@ -84,7 +89,7 @@ def _float_case(c):
 
 
 def impl(c):
-    if c["kind"] == "evf":
+    if c["kind"] in ("evf", "dyncont"):
         return "n/a"
     m = _mod(c)
     if m:
@@ -96,7 +101,35 @@ def compare(c, a, b):
     return ev1.strip_calls(a) == ev1.strip_calls(b)
 
 
+def oracle_dyncont(c):
+    """evolve T1 steps, continue the result with a callable for K more states; must equal T1+K-1 steps at once."""
+    import cellpylib as cpl
+    rng = np.random.RandomState(c["seed"])
+    memo = ev1.memo_value(c["memo"])
+    K = c["K"]
+    if c["dim"] == 1:
+        ca = rng.randint(0, 2, size=(c["H"], 7)).astype(np.int32)
+        rule = lambda n, cc, t: cpl.nks_rule(n, 30)                      # noqa: E731
+        ev = lambda a, T: cpl.evolve(a, timesteps=T, apply_rule=rule, r=1, memoize=memo)            # noqa: E731
+    else:
+        ca = rng.randint(0, 2, size=(c["H"], 3, 4)).astype(np.int32)
+        rule = lambda n, cc, t: int(np.sum(n)) % 2                        # noqa: E731
+        ev = lambda a, T: cpl.evolve2d(a, timesteps=T, apply_rule=rule, r=1, memoize=memo)          # noqa: E731
+    first = ev(ca, c["T1"])
+    second = ev(first, lambda a, t: t < K)
+    once = ev(ca.copy(), c["T1"] + K - 1)
+    if second.shape != once.shape or second.tobytes() != once.tobytes():
+        bad = [i for i in range(min(len(second), len(once))) if second[i].tobytes() != once[i].tobytes()]
+        return "continuing with a callable timesteps for %d states after %d (history %d): differs from evolving at once at rows %s" % (
+            K, c["T1"], c["H"], bad[:5])
+    if second[:len(first)].tobytes() != first.tobytes():
+        return "the given history was not returned unchanged"
+    return None
+
+
 def oracle(c):
+    if c["kind"] == "dyncont":
+        return oracle_dyncont(c)
     if c["kind"] == "evf":
         ca, ev = _float_case(c)
         snap = ca.tobytes()
@@ -151,6 +184,8 @@ def oracle(c):
 
 
 def nontrivial(c, ans):
+    if c["kind"] == "dyncont":
+        return True
     if c["kind"] == "evf":
         return c["T1"] >= 2 and c["T2"] >= 2
     if c["kind"] != "ev1":
